@@ -1018,3 +1018,14 @@ add("C05", "manifest-discovery-follows-directory-symlinks", BP,
     [("            for path in Path(self.parent_directory).rglob(self.file_type.value)\n", "            for path in map(Path, glob.iglob(str(Path(self.parent_directory) / \"**\" / self.file_type.value), recursive=True))\n"),
      ("from abc import ABC, abstractmethod\n", "import glob\nfrom abc import ABC, abstractmethod\n")],
     "fire", "R-ENUM-SIBLINGS", "find_file_locations")
+CTF = "codemodder/codetf.py"
+FC = "codemodder/file_context.py"
+add("C15", "report-model-normalises-paths", CTF,
+    [("    changes: list[Change] = []\n    ai: Optional[AIMetadata] = None\n", "    changes: list[Change] = []\n    ai: Optional[AIMetadata] = None\n\n    @model_validator(mode=\"after\")\n    def normalise_path(self):\n        self.path = self.path.replace(\"\\\\\", \"/\")\n        return self\n")],
+    "fire", "R-MODEL-FAITHFUL", "normalise_path")
+add("C15", "benign-report-model-checks-path", CTF,
+    [("    changes: list[Change] = []\n    ai: Optional[AIMetadata] = None\n", "    changes: list[Change] = []\n    ai: Optional[AIMetadata] = None\n\n    @model_validator(mode=\"after\")\n    def validate_path(self):\n        if not self.path:\n            raise ValueError(\"path must not be empty\")\n        return self\n")],
+    "silent")
+add("C15", "recorded-changeset-filtered-afterwards", FC,
+    [("        self.changesets.append(result)\n", "        result.changes = [c for c in result.changes if c.lineNumber not in self.line_exclude]\n        self.changesets.append(result)\n")],
+    "fire", "R-MODEL-FAITHFUL", "ChangeSet")
